@@ -17,6 +17,8 @@
 //	                PrePut hook, read-only runtime provider), then every observer path,
 //	part "ws"     — the API message cells over the real websocket endpoint
 //	                (module system started, api main handler served by httptest),
+//	part "storm"  — concurrent privileged writers of large flagged records next to
+//	                writers of unflagged records, then read-back and observer probes,
 //	part "hist"   — PRNG-generated histories of privileged writes and observer
 //	                operations with persistent (cached) observer interfaces.
 //
@@ -80,6 +82,12 @@ func childSpecs(cfg vlib.Cfg) []spec {
 			}
 		}
 	}
+	// first in the list: the storms run while the table children run
+	var storms []spec
+	for _, be := range []string{"fstree", "bbolt", "badger", "hashmap"} {
+		storms = append(storms, spec{Tier: cfg.Tier, Seed: cfg.Seed, Part: "storm", Backend: be})
+	}
+	out = append(storms, out...)
 	nh := cfg.N(2, 32)
 	for _, be := range backends {
 		for h := 0; h < nh; h++ {
@@ -142,7 +150,7 @@ func main() {
 	rep.Set("children_done", done)
 	rep.Set("cells_expected", wantCells)
 	if cfg.Replay == "" {
-		got := int(rep.Counter("cells_table") + rep.Counter("cells_reflag") + rep.Counter("cells_failmod") + rep.Counter("cells_ws"))
+		got := int(rep.Counter("cells_table") + rep.Counter("cells_reflag") + rep.Counter("cells_failmod") + rep.Counter("cells_ws") + rep.Counter("cells_storm"))
 		rep.Floor(got == wantCells, "executed %d of %d table/reflag cells", got, wantCells)
 		dec := int(rep.Counter("cells_decided"))
 		rep.Floor(dec*10 >= wantCells*9, "only %d of %d table/reflag cells were decided (the rest is inconclusive)", dec, wantCells)
@@ -200,6 +208,8 @@ func childMain(dir string) {
 		w.runFailmod()
 	case "ws":
 		w.runWS()
+	case "storm":
+		w.runStorm()
 	case "hist":
 		w.runHist()
 	default:
